@@ -355,11 +355,12 @@ static void mode_loo(void) {
   static const int NQ[] = {6, 7, 9, 12}, NT[] = {6, 7, 9, 12, 20, 30};
   int T = vx_thorough();
   int n = T ? NT[vx_choose("n", 6)] : NQ[vx_choose("n", 4)];
+  int big = n > 12;                             /* 20 and 30 objects: small learner alphabet, one perturbation size */
   int tc = vx_choose("threads", T ? 5 : 4);
   int nthreads = tc == 0 ? 1 : tc == 1 ? 2 : tc == 2 ? 3 : tc == 3 ? n + 1 : 8;
-  int dl = vx_choose("delta", 2);
-  cfg_t c; choose_learner(&c, 3, T ? 2 : 1); c.n = n;
-  c.fam = vx_choose("fam", T ? 2 : 1);
+  int dl = big ? 0 : vx_choose("delta", 2);
+  cfg_t c; choose_learner(&c, 3, big ? 0 : T ? 2 : 1); c.n = n;
+  c.fam = vx_choose("fam", (T && !big) ? 2 : 1);
   vx_require(c.n - 1 >= c.p + 2);
   if (c.algo == A_LDA) vx_require(min_class(&c) >= 3 && c.n - 2 - c.ncls >= c.p);
   call_t k = {S_LOO, nthreads, 0, 1, NULL};
@@ -372,9 +373,10 @@ static void mode_kfold(void) {
   int nlab = n == 7 ? 4 : 3;
   static int lab[NMAX]; int cnt[8] = {0};
   for (int i = 0; i < n; i++) { lab[i] = vx_choose("label", nlab); cnt[lab[i]]++; }
-  int tc = vx_choose("threads", 3), nthreads = tc == 0 ? 1 : tc == 1 ? 2 : 4;
+  /* n = 7 ({0..3}^7, 16384 label vectors): two worker threads (fewer threads than groups and a ragged last batch), small learner alphabet */
+  int tc = n == 7 ? 1 : vx_choose("threads", 3), nthreads = tc == 0 ? 1 : tc == 1 ? 2 : 4;
   int dl = (T && n == 6) ? vx_choose("delta", 2) : 0;
-  cfg_t c; choose_learner(&c, 2, T ? 1 : 0); c.n = n;
+  cfg_t c; choose_learner(&c, 2, (T && n == 6) ? 1 : 0); c.n = n;
   /* the statement's refit is undefined when a training set cannot carry the model */
   for (int g = 0; g < nlab; g++) if (cnt[g]) vx_require(c.n - cnt[g] >= c.p + 2);
   call_t k = {S_KFOLD, nthreads, 0, 1, lab};
@@ -382,14 +384,14 @@ static void mode_kfold(void) {
 }
 
 static void mode_boot(void) {
-  static const int NQ[] = {6, 8, 9}, NT[] = {6, 8, 9, 12, 15};
+  static const int NQ[] = {6, 8, 9}, NT[] = {6, 8, 9, 12};
   static const int IT[] = {1, 2, 3, 12, 4, 6};
   int T = vx_thorough();
-  int n = T ? NT[vx_choose("n", 5)] : NQ[vx_choose("n", 3)];
+  int n = T ? NT[vx_choose("n", 4)] : NQ[vx_choose("n", 3)];
   int g = 1 + vx_choose("groups-1", n);
   int it = IT[vx_choose("iterations", T ? 6 : 4)];
   cfg_t c; choose_learner(&c, 3, T ? 1 : 0); c.n = n;
-  c.fam = vx_choose("fam", T ? 2 : 1);
+  c.fam = vx_choose("fam", (T && n < 12) ? 2 : 1);
   int dl = c.algo == A_LDA ? vx_choose("delta", 2) : 0;
   int t = (c.n + g - 1) / g;
   /* groups = 1 leaves an empty training set, small group counts leave too few rows: not judged here (DESIGN 6.0) */
@@ -467,7 +469,7 @@ static void body(void) {
 
 int main(int argc, char **argv) {
   vg_seed(getenv("VERIF_SEED") ? atol(getenv("VERIF_SEED")) : 0);
-  vx_describe("alphabet", "helpers: nobj 1..30 x groups 1..nobj x seeds 0..7[63], testsize .1...9; LOO x {PLS nlv<=2[3] ny<=2[3] scaling, MLR p<=3[6] ny<=3, LDA 2-3 classes} x n {6,7,9,12[,20,30]} x threads {1,2,3,n+1[,8]}; KFoldCV x {PLS,MLR} x every label vector in {0,1,2}^6 [and {0..3}^7] x threads {1,2,4}; Bootstrap x {PLS,MLR,LDA} x n {6,8,9[,12,15]} x groups 1..n x iterations {1,2,3,4,6,12}, 1 thread; each followed by n re-runs with one response changed");
+  vx_describe("alphabet", "helpers: nobj 1..30 x groups 1..nobj x seeds 0..7[63], testsize .1...9; LOO x {PLS nlv<=2[3] ny<=2[3] scaling, MLR p<=3[6] ny<=3, LDA 2-3 classes} x n {6,7,9,12[,20,30]} x threads {1,2,3,n+1[,8]}; KFoldCV x {PLS,MLR} x every label vector in {0,1,2}^6 x threads {1,2,4} [and {0..3}^7 x 2 threads]; Bootstrap x {PLS,MLR,LDA} x n {6,8,9[,12]} x groups 1..n x iterations {1,2,3,4,6,12}, 1 thread; each followed by n re-runs with one response changed");
   vx_describe("oracle", "reported value = (mean over sweeps of) public-API refit on the other folds (allowance 1e3*eps*n*kappa^2*scale, kappa of the training design by long-double SVD); own-response change leaves own prediction bit-identical; folds observed at PLS/MLR/LDA entry points are disjoint, exhaustive partitions; influence-matrix reconstruction of the bootstrap partition; residual = prediction - observed[col mod ny]");
   vx_set_shard_depth(5);
   vx_expect_outcomes(500);
